@@ -18,7 +18,9 @@ PROP = 'C07'
 LEVEL = 'exploration'
 RULE = ('random chi-square comparisons: shapes () to 4-d, 1-3 compared '
         'datasets, arbitrary patterns of zero errors (including all zero), '
-        'both values of ignore_empty, NaN / inf only with the option off, '
+        'both values of ignore_empty, NaN / inf only with the option off '
+        '(one special value, or special values on both sides of one bin), '
+        'arrays in C order, Fortran order or as transposed views, '
         'differences scaled so that p-values fall on both sides of alpha; '
         'distinct by (shape, datasets, option, zero-error pattern hash, '
         'verdict, special values); non-trivial when the statistic of at '
@@ -82,6 +84,23 @@ def gen_case(rng):
             o_e[i] = np.nan
         else:
             o_e[i] = np.inf
+    if not ignore and rng.random() < 0.08:
+        # special values on both sides of the same bin
+        i = rng.randrange(size)
+        o_v, o_e = others[rng.randrange(nds)]
+        left, right = rng.choice(['inf_e', 'nan_e', 'inf_v']), \
+            rng.choice(['inf_e', 'nan_e', 'nan_v'])
+        for what, (val, err) in ((left, (ref_v, ref_e)),
+                                 (right, (o_v, o_e))):
+            if what == 'inf_e':
+                err[i] = np.inf
+            elif what == 'nan_e':
+                err[i] = np.nan
+            elif what == 'inf_v':
+                val[i] = np.inf
+            else:
+                val[i] = np.nan
+        specials.add(f'pair:{left}/{right}')
     dtype = 'f8'
     if not specials and rng.random() < 0.1:
         # integer-valued datasets (counts), possibly with large differences
@@ -95,9 +114,14 @@ def gen_case(rng):
                    np.array([float(rng.randint(0 if ignore else 1, 50))
                              for _ in range(size)])] for _ in range(nds)]
         specials.add('integer-' + dtype)
+    # memory layout of the arrays handed to the datasets (same logical
+    # content): C order, Fortran order, transposed view
+    layout = [rng.choice(['C', 'C', 'F', 'T']) for _ in range(nds + 1)] \
+        if len(shp) >= 2 else ['C'] * (nds + 1)
     return {'shape': shp, 'alpha': alpha, 'ignore': ignore, 'ref': [ref_v,
                                                                     ref_e],
-            'others': others, 'specials': sorted(specials), 'dtype': dtype}
+            'others': others, 'specials': sorted(specials), 'dtype': dtype,
+            'layout': layout}
 
 
 def build(cas, perm=None):
@@ -105,7 +129,17 @@ def build(cas, perm=None):
     from valjean.gavroche.stat_tests.chi2 import TestChi2
     shp = cas['shape']
 
-    def mkds(val, err, name):
+    layouts = cas.get('layout') or ['C'] * (len(cas['others']) + 1)
+
+    def relayout(arr, how):
+        if how == 'F':
+            return np.asfortranarray(arr)
+        if how == 'T':
+            # a transposed view of a C-ordered array of the reversed shape
+            return np.ascontiguousarray(arr.T).T
+        return arr
+
+    def mkds(val, err, name, how):
         dtype = np.dtype(cas.get('dtype', 'f8'))
         val, err = np.array(val, dtype=dtype), np.array(err, dtype=dtype)
         if perm is not None:
@@ -113,9 +147,11 @@ def build(cas, perm=None):
         val, err = val.reshape(shp), err.reshape(shp)
         if shp == ():
             val, err = dtype.type(val), dtype.type(err)
+        else:
+            val, err = relayout(val, how), relayout(err, how)
         return Dataset(val, err, name=name)
-    return TestChi2(mkds(*cas['ref'], 'ref'),
-                    *[mkds(o_v, o_e, f'd{k}')
+    return TestChi2(mkds(*cas['ref'], 'ref', layouts[0]),
+                    *[mkds(o_v, o_e, f'd{k}', layouts[k + 1])
                       for k, (o_v, o_e) in enumerate(cas['others'])],
                     name='c', alpha=cas['alpha'], ignore_empty=cas['ignore'])
 
